@@ -330,3 +330,21 @@ PROPS["C11"] = {
         {"name": "C11NeverAnswers", "pkg": CC, "test": "TestVerifC11NeverAnswers", "kind": "enum", "only_tiers": ["thorough"]},
     ],
 }
+
+PROPS["C04"] = {
+    "level": "exploration",
+    "rule": ("Table: every assignment of outcome kind in {pass, assertion failure, client-reported error, setup error, could-not-run, no result from the client, never answered} x marking in {unmarked, known-failing, known-flaky} x peer feedback {absent, present} to 1..N cases (N=2 quick, 3 thorough; 39 rows per case), driven through the real API (newResults, assert/failed/failedToStart/failRemaining/setOutcome, recordSideband, report) with exact-name marking patterns; Random: up to 12 cases. "
+             "Oracle: model of the statement for the boolean verdict; accounting: passed + failed + failed-as-expected + could-not-run == selected with every case in exactly the model's counter; every failed / failed-as-expected case is named in a FAILED / INFO line and no passing case is. "
+             "Fate: the exported Run with a re-executed scripted client process (canned matching / deviating / error results, no answer, exit 0 or 1 after k of n requests, garbage) against in-process reference servers: Run's verdict must equal the model's. "
+             "Non-trivial: a row with a marking, feedback, or a setup/could-not-run/unanswered/no-result kind; Fate: an early exit strictly between the first and the last request."),
+    "assumptions": ["a case that was never handed to the client cannot carry peer feedback (that combination is excluded)",
+                    "could-not-run cases are counted, not named individually"],
+    "units": [
+        {"name": "C04Table", "pkg": CC, "test": "TestVerifC04Table", "kind": "enum",
+         "shards": {"quick": 4, "thorough": 16}, "env_tier": {"quick": {"VERIF_C04_CASES": 3}, "thorough": {"VERIF_C04_CASES": 4}}},
+        {"name": "C04Random", "pkg": CC, "test": "TestVerifC04Random", "kind": "rapid",
+         "checks": {"quick": 20000, "thorough": 300000}, "shards": {"quick": 2, "thorough": 8}},
+        {"name": "C04Fate", "pkg": CC, "test": "TestVerifC04Fate", "kind": "rapid",
+         "checks": {"quick": 12, "thorough": 150}, "shards": {"quick": 4, "thorough": 16}, "timeout": {"quick": 900, "thorough": 5400}},
+    ],
+}
